@@ -1,9 +1,10 @@
 (* C04/Properties.v — property theorems only.
-   PARTIAL: one technique per walk (scan; frame-pointer chains; CFI through the abstract correct oracle and
-   through C06's evaluator for a concrete rule), for stacks of UNBOUNDED depth (induction on the list of frame
-   specs).  Technique-per-frame mixes are covered by the correspondence run only (design/C04.md). *)
+   Stacks of UNBOUNDED depth (induction on the list of frame specs): one technique per walk (scan; frame-pointer
+   chains; CFI through the abstract correct oracle), and — round 5 — the technique chosen PER FRAME between CFI
+   and scanning ([c04_recovers_chain], preconditions = the boolean [mix_wf_layout]).  Frame-pointer frames inside a
+   mix, STACK WIN and the evaluation of real rule text are covered by the correspondence run (design/C04.md). *)
 From Coq Require Import Lia ZArith List.
-From RM Require Import C05.Model C05.Proofs C04.Model C04.Proofs C04.ProofsFp.
+From RM Require Import C05.Model C05.Proofs C04.Model C04.Proofs C04.ProofsFp C04.ProofsMix.
 Import ListNotations.
 Open Scope Z_scope.
 
@@ -85,6 +86,35 @@ Theorem c04_fp_archs : (forall os, fp_arch x86 os) /\ (forall os, fp_arch amd64 
 Proof. exact (conj fp_arch_x86 (conj fp_arch_amd64 (conj fp_arch_arm64 fp_arch_arm_ios))). Qed.
 Print Assumptions c04_fp_archs.
 
+(* technique PER FRAME: every call is either described by CFI (abstract correct oracle [mix_cfi_correct], or any oracle
+   agreeing with it on the frames of this walk; arbitrary words in the frame, look-alike return addresses included) or
+   findable only by scanning ([skipped argument words: arbitrary][zeros][return address] inside the window of its
+   callee: 160 words above the context frame, 40 above any other frame, MIPS per c04_constants).  For every
+   architecture x OS meeting [mix_arch] (all six; ARM except on iOS, where a valid frame pointer of 0 ends the walk by
+   design), both profiles, any module lookup, any context register file: the walker returns the context frame followed
+   by exactly one frame per generated call — return address, instruction = ra - adj, sp just above the return-address
+   slot, trust cfi / scan as generated, the validity set (callee-saved registers forwarded through CFI frames, {ip, sp}
+   after a scan), the general registers carried through CFI frames — and stops at the generated end of stack.
+   The precondition is the boolean [mix_wf_layout]; depth is unbounded (induction on the list of specs). *)
+Theorem c04_recovers_chain :
+  forall p a os module_at max_module_addr instr_valid base fs ip0 gp0 fuel cfi_walk,
+    mix_arch a os ->
+    (forall callee gc fwd, r_fp (f_regs callee) = 0 -> r_lr (f_regs callee) = 0 ->
+                           cfi_walk callee gc fwd = mix_cfi_correct a base fs callee gc fwd) ->
+    mix_wf_layout a instr_valid module_at base ip0 fs = true ->
+    (length fs < fuel)%nat ->
+    let '(r, v, mem) := mix_layout a base ip0 gp0 fs in
+    walk_stack current_code p a os mem module_at max_module_addr cfi_walk instr_valid fuel r v
+    = Ret (from_context r v TContext :: mix_chain a v gp0 base 0 fs).
+Proof. exact mix_recovers_gen. Qed.
+Print Assumptions c04_recovers_chain.
+
+Theorem c04_mix_archs :
+  (forall os, mix_arch x86 os) /\ (forall os, mix_arch amd64 os) /\ (forall os, os <> OS_IOS -> mix_arch arm os) /\
+  (forall os, mix_arch arm64 os) /\ (forall os, mix_arch mips32 os) /\ (forall os, mix_arch mips64 os).
+Proof. exact (conj mix_arch_x86 (conj mix_arch_amd64 (conj mix_arch_arm (conj mix_arch_arm64 (conj mix_arch_mips32 mix_arch_mips64))))). Qed.
+Print Assumptions c04_mix_archs.
+
 (* the architectures the two theorems apply to *)
 Theorem c04_scan_archs : scan_arch x86 /\ scan_arch amd64 /\ scan_arch arm /\ scan_arch arm64 /\ scan_arch mips32 /\ scan_arch mips64.
 Proof. exact (conj scan_arch_x86 (conj scan_arch_amd64 (conj scan_arch_arm (conj scan_arch_arm64 (conj scan_arch_mips32 scan_arch_mips64))))). Qed.
@@ -144,3 +174,29 @@ Example c04_nonvacuous_scan_run :
              length fs = 65%nat /\
              map f_resume (firstn 3 (tl fs)) = [1073742080; 1073742096; 1073742112].
 Proof. cbn [scan_layout]. eexists. split; [vm_compute; reflexivity|]. split; reflexivity. Qed.
+
+(* technique per frame: 64 calls, CFI and scan alternating irregularly, CFI frames full of look-alike return addresses,
+   mips32 frames with code-looking words in the skipped argument area *)
+Definition nv_mix (skip : Z) (n : nat) : list mspec :=
+  map (fun i => let ra := 1073742080 + 16 * Z.of_nat i in
+                if (Nat.eqb (i mod 3) 0 || Nat.eqb (i mod 7) 2)%bool
+                then {| ms_tech := TkCfi; ms_fill := repeat 1073742100 (i mod 5); ms_ra := ra |}
+                else {| ms_tech := TkScan; ms_fill := repeat 1073742100 (Z.to_nat skip) ++ repeat 0 (i mod 4); ms_ra := ra |})
+      (seq 0 n).
+Definition nv_mods (x : Z) : option Z := if (1073741824 <=? x) && (x <? 1073807360) then Some 0 else None.
+
+Example c04_nonvacuous_mix_wf64 :
+  mix_wf_layout x86 nv_iv nv_mods 2147483648 1073741904 (nv_mix 0 64) = true /\
+  mix_wf_layout arm64 nv_iv nv_mods 140724603453440 1073741904 (nv_mix 0 64) = true /\
+  mix_wf_layout mips32 nv_iv nv_mods 2147483648 1073741904 (nv_mix 4 64) = true /\
+  map ms_tech (firstn 6 (nv_mix 0 64)) = [TkCfi; TkScan; TkCfi; TkCfi; TkScan; TkScan].
+Proof. repeat split; vm_compute; reflexivity. Qed.
+
+Example c04_nonvacuous_mix_run :
+  let '(r, v, mem) := mix_layout amd64 140724603453440 1073741904 [7; 8; 9] (nv_mix 0 64) in
+  exists fs, walk_stack current_code Debug amd64 OS_WINDOWS mem nv_mods 0 (mix_cfi_correct amd64 140724603453440 (nv_mix 0 64)) nv_iv
+               (fuel_for mem) r v = Ret fs /\
+             length fs = 65%nat /\
+             map f_trust (firstn 6 (tl fs)) = [TCfi; TScan; TCfi; TCfi; TScan; TScan] /\
+             map f_resume (firstn 3 (tl fs)) = [1073742080; 1073742096; 1073742112].
+Proof. cbn [mix_layout]. eexists. split; [vm_compute; reflexivity|]. repeat split; reflexivity. Qed.
